@@ -89,7 +89,7 @@ mod sp {
             FrameBody::Begin(_) => format!("begin@{}", f.channel),
             FrameBody::Attach(a) => format!("attach:{}:h{}", a.name, a.handle.0),
             FrameBody::Flow(fl) => format!("flow:h{:?}:dc{:?}:credit{:?}:nii{:?}:drain{}:echo{}", fl.handle.as_ref().map(|h| h.0), fl.delivery_count, fl.link_credit, fl.next_incoming_id, fl.drain, fl.echo),
-            FrameBody::Transfer { performative: t, payload } => format!("transfer:h{}:id{:?}:settled{:?}:more{}:len{}", t.handle.0, t.delivery_id, t.settled, t.more, payload.len()),
+            FrameBody::Transfer { performative: t, payload } => format!("transfer:h{}:id{:?}:settled{:?}:more{}:len{}:tail{}", t.handle.0, t.delivery_id, t.settled, t.more, payload.len(), payload.last().copied().unwrap_or(0)),
             FrameBody::Disposition(d) => format!("disposition:{:?}:{}-{:?}:settled{}:{}", d.role, d.first, d.last, d.settled, d.state.as_ref().map(|s| format!("{:?}", s).split(|c: char| !c.is_alphanumeric()).next().unwrap_or("").to_string()).unwrap_or_else(|| "none".into())),
             FrameBody::Detach(d) => format!("detach:h{}:{}:{}", d.handle.0, d.closed, if d.error.is_some() { "err" } else { "noerr" }),
             FrameBody::End(e) => format!("end@{}:{}", f.channel, if e.error.is_some() { "err" } else { "noerr" }),
@@ -2653,7 +2653,10 @@ fn main() {
                             let log = tokio::time::timeout(Duration::from_secs(2), peer).await.ok().and_then(|r| r.ok()).unwrap_or_default();
                             let i_det = log.iter().position(|l| l.starts_with("detach:")).unwrap_or(log.len());
                             let n = log[..i_det].iter().filter(|l| l.starts_with("transfer:")).count();
-                            format!("{{\"client\":\"{}\",\"transfers_seen\":{},\"log\":{}}}", client.unwrap_or_else(|e| e), n, sp::json_list(&log))
+                            // the messages are "m0", "m1", "m2": the last payload byte tells them apart
+                            let tails: Vec<String> = log[..i_det].iter().filter(|l| l.starts_with("transfer:")).filter_map(|l| l.rsplit(":tail").next().map(|x| x.to_string())).collect();
+                            let in_order = tails == vec![format!("{}", b'0'), format!("{}", b'1'), format!("{}", b'2')];
+                            format!("{{\"client\":\"{}\",\"transfers_seen\":{},\"in_order\":{},\"log\":{}}}", client.unwrap_or_else(|e| e), n, in_order, sp::json_list(&log))
                         }
                         // cancel_recv_multi_frame: the peer sends one delivery in two transfer frames, 250 ms apart; the
                         //   application polls recv() under a 20 ms time-out (dropping the pending future each time) and must in
